@@ -630,9 +630,12 @@ fn process_use_statement(
                 .get(&mangled)
                 .copied()
                 .unwrap_or(true);
+            // ... and it never replaces the visibility of a member the module already has
+            // under that name.
             module_info
                 .visibility_map
-                .insert(exported_name, target_is_public);
+                .entry(exported_name)
+                .or_insert(target_is_public);
             module_info.use_alias_map.insert(exported_name, mangled);
         }
     }
